@@ -233,6 +233,18 @@ def build_driver(prop: str, timeout=600) -> tuple[bool, str]:
     return rc == 0, out + out2
 
 
+def _big_stack():
+    import resource
+    try:
+        resource.setrlimit(resource.RLIMIT_STACK, (resource.RLIM_INFINITY, resource.RLIM_INFINITY))
+    except Exception:
+        try:
+            soft, hard = resource.getrlimit(resource.RLIMIT_STACK)
+            resource.setrlimit(resource.RLIMIT_STACK, (hard, hard))
+        except Exception:
+            pass
+
+
 def run_model(prop: str, cases: list[str], timeout=1800, shards: int = 0) -> list[str]:
     """Feed one s-expression per line to the extracted model; one result line per case."""
     d = BUILD / prop
@@ -244,7 +256,7 @@ def run_model(prop: str, cases: list[str], timeout=1800, shards: int = 0) -> lis
     procs = []
     for ch in chunks:
         p = subprocess.Popen([str(exe)], stdin=subprocess.PIPE, stdout=subprocess.PIPE, text=True,
-                             env=dict(os.environ, OCAMLRUNPARAM="l=8G"))
+                             env=dict(os.environ, OCAMLRUNPARAM="l=8G"), preexec_fn=_big_stack)
         procs.append((p, ch))
     import threading
     results: list[list[str]] = [[] for _ in chunks]
